@@ -43,12 +43,21 @@ Record c11case := mk_c11case {
   c_strings : list sobs;
   c_levels : list (nat * list ostr);   (* complete MarkovCracker output of some levels, in order *)
   c_pws : list ostr;               (* the valid training passwords in file order *)
-  c_counts : list (option nat * nat)   (* omen_levels_count of pass 3 *)
+  c_counts : list (option nat * nat);  (* omen_levels_count of pass 3 *)
+  c_decoded_ok : bool;             (* the scorer's codec gives back the written text *)
+  c_sbreaks : list N;              (* line ends of the scorer's reader *)
+  c_breaks : list N;               (* str.splitlines characters (Consts_gen.guesser_linebreaks) *)
+  c_scorer_loaded : bool;          (* OmenScorer(...) did not raise *)
+  c_guesser_loaded : bool          (* load_rules returned True *)
 }.
 
-Definition check_string (T : ttab) (Sc : scorer) (G : option omen) (o : sobs) : bool :=
+Definition check_string (T : ttab) (Sc : option scorer) (G : option omen) (o : sobs) : bool :=
   olevel_eqb (trainer_level T (so_str o)) (so_trainer o) &&
-  match so_scorer o with Some v => olevel_eqb (scorer_level Sc (so_str o)) v | None => true end &&
+  match so_scorer o, Sc with
+  | Some v, Some sc => olevel_eqb (scorer_level sc (so_str o)) v
+  | Some _, None => false
+  | None, _ => true
+  end &&
   match so_guesser o, G with
   | GHit l, Some g => olevel_eqb (level_of g (so_str o)) (Some l)
   | GNotUpto l, Some g => match level_of g (so_str o) with Some l' => Nat.ltb l l' | None => true end
@@ -70,12 +79,16 @@ Definition check_c11 (c : c11case) : nat :=
   if negb (leqb line_eqb (f_ep F) (c_ep c)) then 3 else
   if negb (leqb line_eqb (f_cp F) (c_cp c)) then 4 else
   if negb (leqb Nat.eqb (f_ln F) (c_ln c)) then 5 else
-  if negb (forallb (check_string T (load_s F) (load_g F)) (c_strings c)) then 6 else
-  if negb (match load_g F with
+  let Sc := read_s (c_decoded_ok c) (c_sbreaks c) F in
+  let G := read_g (c_breaks c) F in
+  if negb (forallb (check_string T Sc G) (c_strings c)) then 6 else
+  if negb (match G with
            | Some g => wf_tablesb g &&
                        forallb (fun le => leqb ostr_eqb (level_strings g (Z.of_nat (fst le))) (snd le)) (c_levels c)
-           | None => false end) then 7 else
-  if negb (check_counts T (c_pws c) (c_counts c)) then 8 else 0.
+           | None => is_nil (c_levels c) end) then 7 else
+  if negb (check_counts T (c_pws c) (c_counts c)) then 8 else
+  if negb (Bool.eqb (match Sc with Some _ => true | None => false end) (c_scorer_loaded c) &&
+           Bool.eqb (match G with Some _ => true | None => false end) (c_guesser_loaded c)) then 9 else 0.
 
 Definition failing_codes {X} (f : X -> nat) (l : list X) : list nat :=
   map (fun kx => fst kx * 10 + f (snd kx))
